@@ -479,6 +479,40 @@ def bounded_masks_instance():
                     raises=())
 
 
+def extreme_levels_bounded_instance():
+    """Masks whose definition is a ratio of magnitudes (ideal ratio / amplitude / complex / phase-sensitive mask) on signals of any
+    representable level -- raw integer PCM next to normalised audio, 1e+200 .. 1e-200: the mask of c * s is the mask of s (the eps
+    guard switched off for the tiny levels).  (sqrt(|s|^2) is |s| over the reals; its square leaves the range of the type.)"""
+    from pb_bss.extraction import mask_module as mm
+
+    def make(B):
+        return {'fn': B.choose('fn', ['ratio', 'ratio', 'amplitude', 'complex', 'phase']), 'level': B.choose('level', [200, 160, 100, -100, -165, -200]),
+                'dt': B.choose('dt', ['c128', 'c128', 'c64']), 'src': B.choose('src', [0, 1, -1]), 'seed': B.choose('seed', list(range(3000))), 'd': B.given('d', np.zeros(1))}
+
+    def call(inp):
+        rng = np.random.RandomState(inp['seed'])
+        shape = (3, 4, 5)
+        s_ = rng.normal(size=shape) + 1j * rng.normal(size=shape)
+        level = inp['level']
+        if inp['dt'] == 'c64':
+            level = int(np.sign(level)) * min(abs(level), 30) // 2          # inside the range of single precision
+            s_ = s_.astype(np.complex64)
+        c = s_.dtype.type(10.0) ** level if inp['dt'] == 'c128' else np.complex64(10.0 ** level)
+        fn = {'ratio': mm.ideal_ratio_mask, 'amplitude': mm.ideal_amplitude_mask, 'complex': mm.ideal_complex_mask, 'phase': mm.phase_sensitive_mask}[inp['fn']]
+        kw = {'source_axis': inp['src']}
+        if inp['fn'] != 'complex':
+            kw['eps'] = 0.0
+        with np.errstate(all='ignore'):
+            return {'base': np.asarray(fn(s_, **kw)), 'scaled': np.asarray(fn(s_ * c, **kw)), 'single': inp['dt'] == 'c64'}
+
+    def ensures(sp, inp, out):
+        tol = 1e-4 if out['single'] else 1e-10
+        yield 'finite-at-level-1e%d[%s]' % (inp['level'], inp['fn']), bool(np.all(np.isfinite(out['scaled'])))
+        yield 'mask-independent-of-the-level[%s]' % inp['fn'], bool(out['base'].shape == out['scaled'].shape and np.allclose(out['scaled'], out['base'], rtol=tol, atol=tol))
+
+    return Instance('C18', MM + 'ideal_ratio_mask', 'bounded-signals-of-any-representable-level', make, call, ensures, mode='bounded', bounded_n=100, frame=False)
+
+
 def instances(tier):
     th = tier == 'thorough'
     out = []
@@ -541,5 +575,5 @@ def instances(tier):       # noqa: F811
              with_history(simple_mask_instance('ratio', 2, 2, 0), warm, 'other-shapes'),
              with_history(simple_mask_instance('complex', 2, 2, 1), warm, 'other-shapes'),
              with_history(quantile_instance(3, 0.4), warm, 'other-shapes')]
-    return _instances_before_history4(tier) + extra
+    return _instances_before_history4(tier) + extra + [extreme_levels_bounded_instance()]
 
